@@ -28,7 +28,8 @@ THEOREMS = [f'Gnpy.Chain.{t}' for t in (
     'gain_closes_budget', 'net_offset', 'ref_power_invariant', 'saturation_only_reduces', 'saturation_minimal',
     'saturation_minimal_gain_mode', 'saturation_minimal_gain_mode_no_in_voa',
     'gain_mode_in_voa_over_reduction_fails_current', 'saturation_auto_selected', 'user_values_kept', 'voa_rule', 'voa_nonneg',
-    'voa_auto_can_exceed_pmax_fails_current', 'nodeLoss_is_true_loss', 'ref_pch_in_consistent')]
+    'voa_auto_can_exceed_pmax_fails_current', 'nodeLoss_is_true_loss', 'ref_pch_in_consistent', 'automaticNch_spec',
+    'design_load_uses_band_spacing')]
 RULE = ('cases from one PRNG: (a) 78 % design cases: the star topologies of C08 (degree 1-5, 1-8 line elements per direction, user '
         'amplifiers with full/partial/no gain, delta_p, out_voa, in_voa, fused runs, Raman spans, transceiver-sourced '
         'line) x power/gain mode x delta_power_range/slope/reference/padding/EOL/VOA margin+step/extended gain/ROADM '
@@ -62,7 +63,7 @@ def gen(rng, tier, widen=False):
         return gen_gain_saturation(rng)
     # RamanFiber placements that make designed_network raise (open finding raman-gain-before-estimate of C08) are kept
     # out of this generator
-    c = G.gen_case(rng, tier, widen, raman_crash_rate=0.0, lumped=True)
+    c = G.gen_case(rng, tier, widen, raman_crash_rate=0.0, lumped=True, band_spacing=True)
     c['kind'] = 'design'
     return c
 
@@ -239,12 +240,26 @@ def run_design(case, drv):
     pre_objs, _ = G.chains_of(net, case)
     pre = [[G.record(n) for n in objs] for objs in pre_objs]
     lo, hi, target = G.split_bounds(case['span'])
-    err, _ = design_impl(case, eq, net)
+    import gnpy.core.network as NW
+    seen_total = {}
+    orig_soa = NW.set_one_amplifier
+
+    def spy_soa(node, prev_node, next_node, power_mode, prev_voa, prev_dp, pref_ch_db, pref_total_db, *a, **k):
+        seen_total[node.uid] = float(pref_total_db)
+        return orig_soa(node, prev_node, next_node, power_mode, prev_voa, prev_dp, pref_ch_db, pref_total_db, *a, **k)
+    NW.set_one_amplifier = spy_soa
+    try:
+        err, _ = design_impl(case, eq, net)
+    finally:
+        NW.set_one_amplifier = orig_soa
     si = eq['SI']['default']
     pref_impl = float(watt2dbm(dbm2watt(si.power_dbm)))
-    pref, nch = design_constants(case, eq)
-    pref_total = pref_impl + 10 * math.log10(nch)
+    pref, nch_si = design_constants(case, eq)
     sp = case['span']
+    # the design load of each OMS: the SI count when it is imposed on the reference channel, else the count of the OMS's
+    # own design band with that band's spacing (own reading of the configuration)
+    bands = [G.design_band_of(case, ch, eq) for ch in chains]
+    nchs = [nch_si if si.use_si_channel_count_for_design else int((b[1] - b[0]) // b[2]) for b in bands]
 
     post_objs = ends = None
     post = [None] * len(chains)
@@ -270,7 +285,8 @@ def run_design(case, drv):
                                  'out_voa_auto': bool(a.out_voa_auto)})
         args = model_chain(case, ch, recs, lo, hi, target)
         args.update(span_cfg(sp))
-        args.update(sels=sels, pref=f2b(pref_impl), pref_total=f2b(pref_total),
+        args.update(sels=sels, pref=f2b(pref_impl), nb_ref=(nch_si if si.use_si_channel_count_for_design else None),
+                    band_fmin=int(bands[i][0]), band_fmax=int(bands[i][1]), band_spacing=int(bands[i][2]),
                     src_power=f2b(source_power(case, ch, eq, pref_impl)),
                     # set_fiber_input_power / set_roadm_input_powers start from pref_ch_db behind a transceiver
                     display_power=f2b(pref_impl if ch['src'] == 'TX' else source_power(case, ch, eq, pref_impl)))
@@ -307,6 +323,9 @@ def run_design(case, drv):
         amps = [r for r in post[i] if r['kind'] == 'edfa']
         if not res.cmp_exact(f'{tag}.amplifiers', [r['uid'] for r in amps], a['amps']):
             continue
+        if amps:
+            res.cmp_floats(f'{tag}.pref_total_db', [seen_total.get(r['uid'], float('nan')) for r in amps],
+                           [b2f(a['pref_total'])] * len(amps), abs_=1e-9)
         skip = False
         for r, om in zip(amps, a['outs']):
             o = om['o']
@@ -355,18 +374,20 @@ def run_design(case, drv):
     # ---- monitor --------------------------------------------------------------------------------------------------------------
     st = {'amps': n_amps, 'amps_auto_selected': 0, 'amps_user_dp': 0, 'amps_user_gain_kept': 0, 'amps_reduced': 0,
           'amps_rule_checked': 0, 'amps_rule_clamped': 0, 'amps_voa_auto': 0, 'propagated_oms': 0,
-          'propagated_amp_outputs': 0, 'oms_with_two_amps': 0, 'oms_skipped_raman_propagation': 0}
+          'propagated_amp_outputs': 0, 'oms_with_two_amps': 0, 'oms_skipped_raman_propagation': 0, 'oms_own_band_spacing': 0}
     for i, ch in enumerate(chains):
         if post[i] is None:
             continue
         p0 = source_power(case, ch, eq, pref)
-        known_at = monitor_oms(res, case, eq, ch, pre[i], post[i], p0, pref, pref + 10 * math.log10(nch), st)
+        known_at = monitor_oms(res, case, eq, ch, pre[i], post[i], p0, pref, pref + 10 * math.log10(nchs[i]), st)
+        st['oms_own_band_spacing'] += int(bands[i][2] != si.spacing and not si.use_si_channel_count_for_design)
         if sum(1 for r in post[i] if r['kind'] == 'edfa') >= 2:
             st['oms_with_two_amps'] += 1
         if any(r['kind'] == 'raman' for r in post[i]):
             st['oms_skipped_raman_propagation'] += 1
         else:
-            propagate_oms(res, case, eq, net, ch, post_objs[i], ends[i], post[i], p0, pref, st, known_at)
+            propagate_oms(res, case, eq, net, ch, post_objs[i], ends[i], post[i], p0, pref, st, known_at,
+                          band=None if si.use_si_channel_count_for_design else bands[i])
     res.nontrivial = st['oms_with_two_amps'] > 0
     res.stats.update(st)
     res.stats.update({'design': 1, 'power_mode': int(sp['power_mode']), 'gain_mode': int(not sp['power_mode'])})
@@ -504,16 +525,18 @@ def known_cls(known_at, k):
     return 'unlisted'
 
 
-def propagate_oms(res, case, eq, net, ch, objs, end, post, p0, pref, st, known_at=(None, None)):
+def propagate_oms(res, case, eq, net, ch, objs, end, post, p0, pref, st, known_at=(None, None), band=None):
     """send the design comb through the OMS (element calls on copies) and compare every amplifier output, and the
     output of the ROADM that ends the OMS, with the design figures"""
     from gnpy.core import elements as E
     from gnpy.core.info import create_input_spectral_information
     from gnpy.core.utils import dbm2watt
     si_cfg = eq['SI']['default']
-    si = create_input_spectral_information(f_min=si_cfg.f_min, f_max=si_cfg.f_max, roll_off=si_cfg.roll_off,
+    # the design load of this OMS: the comb of its own design band (own spacing) unless the SI count is imposed
+    fmin, fmax, spacing = band if band else (si_cfg.f_min, si_cfg.f_max, si_cfg.spacing)
+    si = create_input_spectral_information(f_min=fmin, f_max=fmax, roll_off=si_cfg.roll_off,
                                            baud_rate=si_cfg.baud_rate, tx_power=float(dbm2watt(p0)),
-                                           spacing=si_cfg.spacing, tx_osnr=si_cfg.tx_osnr)
+                                           spacing=spacing, tx_osnr=si_cfg.tx_osnr)
     st['propagated_oms'] += 1
     slack = 0.0
     tag = f'{ch["src"]}->{ch["dst"]}'
